@@ -104,3 +104,16 @@ Definition mon_C15_votes (c impl : val) : val :=
                 else [VL [k_c15_votes; VI (Z.of_nat i)]]
               else [])))
     (vL c) (O, []))).
+
+(* ---------- determinism suite (C06) ---------- *)
+(* op 9: a transaction that rewrites the token list and then fails: no effect (code 1);
+   op 10: all keeper objects are rebuilt over the same stores: no effect *)
+Definition det_run (c : val) : val :=
+  let p := dec_params (vnth 0 c) in
+  let tokens := map dec_token (vL (vnth 1 c)) in
+  VL (snd (fold_left (fun (acc : state * list val) (ov : val) =>
+                        let (s, out) := acc in
+                        if vI (vnth 0 ov) =? 9 then (s, out ++ [VL [VI 1; enc_state s]])
+                        else if vI (vnth 0 ov) =? 10 then (s, out ++ [VL [VI 0; enc_state s]])
+                        else let (s', code) := step s (dec_op ov) in (s', out ++ [VL [vNat code; enc_state s']]))
+                     (vL (vnth 2 c)) (init_state p tokens, []))).
